@@ -235,6 +235,8 @@ class UidOracle(Oracle):
                         continue
                     if u in dzombies and not dzombies[u].get("collected"):
                         continue   # a removed, not yet collected owner may still hold the identifier
+                    if any(not z.get("collected") and u in ((z.get("rec") or {}).get("pgs") or {}) for z in dzombies.values()):
+                        continue   # ... and so may the property groups of such an owner
                     if u in pg_ids or u in src_model.recs:
                         # every copied child / property group keeps its identifier when free
                         copied = u in pg_ids or self._was_copied(src_model, u, info)
